@@ -2,8 +2,10 @@
 // real HydroBoundary; one global initial state on a given subgrid layout; the real sweeps driven sequentially in phase order
 // (gradient sweeps -> slope limiter -> prediction (dt/2) -> flux sweeps -> conserved update -> primitive update), per subgrid in
 // the order make_hydro_tasks creates the tasks and with the arguments execute_task passes; time step = CFL * min get_timestep.
-// input line : NX NY NZ sx sy sz px py pz bkind gamma nsteps cfl init seed mach hx hy hz dump
+// input line : NX NY NZ sx sy sz px py pz bkind gamma nsteps cfl init seed mach hx hy hz dump order
 //              (gamma, cfl, mach, hx, hy, hz as hex bit patterns; bkind 0 inflow / 1 outflow / 2 reflective; dump 0/1)
+// order      : 0 = tasks of a phase in creation order; k > 0 = the k-th pseudo-random order of the tasks inside every phase (a task = one
+//              sweep of one subgrid, as in make_hydro_tasks: what different thread counts/schedules change)
 // init       : 0 smooth waves, 1 discontinuous blocks, 2 near-vacuum region, 3 independent random cells
 // output     : T step dt tot[5] abs[5] minmass minenergy nonfinite negative wallmach nclamp (hex doubles, counts decimal), step 0 = initial;
 //              nclamp = number of cells whose mass or energy the positivity clamp of update_conserved_variables reset in that step
@@ -51,6 +53,8 @@ int main() {
     const double mach = rdhex();
     const double h[3] = {rdhex(), rdhex(), rdhex()};
     std::cin >> dump;
+    uint64_t order;
+    std::cin >> order;
     const int NG[3] = {NX, NY, NZ};
     const Box<> box(CoordinateVector<>(0.), CoordinateVector<>(NX * h[0], NY * h[1], NZ * h[2]));
     DensitySubGridCreator< HydroDensitySubGrid > creator(box, CoordinateVector< int_fast32_t >(NX, NY, NZ),
@@ -173,27 +177,51 @@ int main() {
           req = std::min(req, hydro.get_timestep(it.get_hydro_variables(), it.get_ionization_variables(), it.get_volume()));
       dt = cfl * req;
 
+      // tasks of the gradient phase: (subgrid, which sweep); which: 0 internal, 1..3 positive x/y/z, 4..6 negative x/y/z boundary
+      std::vector< std::pair< size_t, int > > tasks;
       for (size_t s = 0; s < N; ++s) {
-        HydroDensitySubGrid &g = *grids[s];
-        g.inner_gradient_sweep(hydro);
+        tasks.push_back(std::make_pair(s, 0));
         for (int a = 0; a < 3; ++a) {
-          const uint_fast32_t ngb = g.get_neighbour(dirp[a]);
-          if (ngb == NEIGHBOUR_OUTSIDE) g.outer_ghost_gradient_sweep(dirp[a], hydro, boundary);
-          else g.outer_gradient_sweep(dirp[a], hydro, *grids[ngb]);
-          if (g.get_neighbour(dirn[a]) == NEIGHBOUR_OUTSIDE) g.outer_ghost_gradient_sweep(dirn[a], hydro, boundary);
+          tasks.push_back(std::make_pair(s, 1 + a));
+          if (grids[s]->get_neighbour(dirn[a]) == NEIGHBOUR_OUTSIDE) tasks.push_back(std::make_pair(s, 4 + a));
         }
       }
-      for (size_t s = 0; s < N; ++s) grids[s]->apply_slope_limiter(hydro);
-      for (size_t s = 0; s < N; ++s) grids[s]->predict_primitive_variables(hydro, 0.5 * dt);
-      for (size_t s = 0; s < N; ++s) {
-        HydroDensitySubGrid &g = *grids[s];
-        g.inner_flux_sweep(hydro, dt);
-        for (int a = 0; a < 3; ++a) {
-          const uint_fast32_t ngb = g.get_neighbour(dirp[a]);
-          if (ngb == NEIGHBOUR_OUTSIDE) g.outer_ghost_flux_sweep(dirp[a], hydro, boundary, dt);
-          else g.outer_flux_sweep(dirp[a], hydro, *grids[ngb], dt);
-          if (g.get_neighbour(dirn[a]) == NEIGHBOUR_OUTSIDE) g.outer_ghost_flux_sweep(dirn[a], hydro, boundary, dt);
-        }
+      std::vector< size_t > cellwise;
+      for (size_t s = 0; s < N; ++s) cellwise.push_back(s);
+      uint64_t shuffle_state = mix(order * 1000003ULL + step);
+      auto shuffle_tasks = [&]() {
+        if (order == 0) return;
+        for (size_t i = tasks.size(); i > 1; --i) { shuffle_state = mix(shuffle_state); std::swap(tasks[i - 1], tasks[shuffle_state % i]); }
+      };
+      auto shuffle_cellwise = [&]() {
+        if (order == 0) return;
+        for (size_t i = cellwise.size(); i > 1; --i) { shuffle_state = mix(shuffle_state); std::swap(cellwise[i - 1], cellwise[shuffle_state % i]); }
+      };
+      shuffle_tasks();
+      for (size_t t = 0; t < tasks.size(); ++t) {
+        HydroDensitySubGrid &g = *grids[tasks[t].first];
+        const int w = tasks[t].second;
+        if (w == 0) g.inner_gradient_sweep(hydro);
+        else if (w <= 3) {
+          const uint_fast32_t ngb = g.get_neighbour(dirp[w - 1]);
+          if (ngb == NEIGHBOUR_OUTSIDE) g.outer_ghost_gradient_sweep(dirp[w - 1], hydro, boundary);
+          else g.outer_gradient_sweep(dirp[w - 1], hydro, *grids[ngb]);
+        } else g.outer_ghost_gradient_sweep(dirn[w - 4], hydro, boundary);
+      }
+      shuffle_cellwise();
+      for (size_t t = 0; t < N; ++t) grids[cellwise[t]]->apply_slope_limiter(hydro);
+      shuffle_cellwise();
+      for (size_t t = 0; t < N; ++t) grids[cellwise[t]]->predict_primitive_variables(hydro, 0.5 * dt);
+      shuffle_tasks();
+      for (size_t t = 0; t < tasks.size(); ++t) {
+        HydroDensitySubGrid &g = *grids[tasks[t].first];
+        const int w = tasks[t].second;
+        if (w == 0) g.inner_flux_sweep(hydro, dt);
+        else if (w <= 3) {
+          const uint_fast32_t ngb = g.get_neighbour(dirp[w - 1]);
+          if (ngb == NEIGHBOUR_OUTSIDE) g.outer_ghost_flux_sweep(dirp[w - 1], hydro, boundary, dt);
+          else g.outer_flux_sweep(dirp[w - 1], hydro, *grids[ngb], dt);
+        } else g.outer_ghost_flux_sweep(dirn[w - 4], hydro, boundary, dt);
       }
       // would the positivity clamp fire? (no gravity, no energy term in this harness)
       nclamp = 0;
@@ -201,8 +229,10 @@ int main() {
         const HydroVariables &hv = grids[where[id].first]->_hydro_variables[where[id].second];
         if (hv.conserved(0) + hv.delta_conserved(0) * dt < 0. || hv.conserved(4) + hv.delta_conserved(4) * dt < 0.) ++nclamp;
       }
-      for (size_t s = 0; s < N; ++s) grids[s]->update_conserved_variables(dt);
-      for (size_t s = 0; s < N; ++s) grids[s]->update_primitive_variables(hydro);
+      shuffle_cellwise();
+      for (size_t t = 0; t < N; ++t) grids[cellwise[t]]->update_conserved_variables(dt);
+      shuffle_cellwise();
+      for (size_t t = 0; t < N; ++t) grids[cellwise[t]]->update_primitive_variables(hydro);
     }
     uint64_t dg = 1469598103934665603ULL;
     for (size_t id = 0; id < ntot; ++id) {
